@@ -19,9 +19,12 @@ const (
 	portTLSOrigin = "8443" // TLS fault origin with a valid certificate for *.tls.test
 	portRefused   = "8081" // nothing listens
 	portBlackhole = "8082" // SYNs are dropped
+	portReset     = "8083" // accepts and resets at once
 	portProbe     = "8088" // healthy origin
 	portUpstream  = "3128" // scripted upstream proxy
 	portUpDead    = "3129" // upstream proxy that refuses connections
+	portUpHole    = "3130" // upstream proxy whose address drops SYNs: the dial times out
+	portUpReset   = "3131" // upstream proxy that accepts and resets at once
 )
 
 // TLS fault kinds and their virtual ports.
@@ -33,11 +36,13 @@ var tlsFaultPorts = map[string]string{
 // Case is one replayable input.
 type Case struct {
 	ID   string `json:"id"`
-	Kind string `json:"kind"` // cut | dial | tls | connect | malformed | client | repeat | counter | label
+	Kind string `json:"kind"` // cut | dial | tls | connect | malformed | client | repeat | counter | label | reply
 	// how the client asks: plain (GET http://), https (GET https://), mitm (inside an intercepted
 	// tunnel), connect (client CONNECT). For kind=client: the listener: plain | tls | mitm.
 	Via      string `json:"via"`
-	Upstream string `json:"upstream,omitempty"` // "" | "up" (scripted upstream proxy) | "dead" (refusing upstream)
+	// "" | "up" (scripted upstream proxy) | an upstream proxy that cannot be reached: "dead" (refuses) | "hole"
+	// (the dial times out) | "rst" (accepts and resets); "sdead" | "shole" | "srst": the same, configured as https://
+	Upstream string `json:"upstream,omitempty"`
 	ReqClose bool   `json:"req_close,omitempty"`
 	ReqMinor int    `json:"req_minor"`
 
@@ -50,7 +55,7 @@ type Case struct {
 	K          int    `json:"k"`                  // bytes written before the close (-1 = everything, regular end)
 	Reset      bool   `json:"reset,omitempty"`
 
-	Fault string `json:"fault,omitempty"` // dial: refused | timeout ; tls: a key of tlsFaultPorts
+	Fault string `json:"fault,omitempty"` // dial: refused | timeout | reset ; tls: a key of tlsFaultPorts
 
 	// connect: the upstream proxy's reply to CONNECT, cut after CK bytes (-1 = all of it)
 	ReplyHex string `json:"reply_hex,omitempty"`
@@ -69,6 +74,15 @@ type Case struct {
 	// h2 session, o = successful plain exchange)
 	N   int    `json:"n,omitempty"`
 	Seq string `json:"seq,omitempty"`
+
+	// reply (reply.go): one upstream reply out of the product space status x upgrade fields x Content-Type x
+	// framing fields x body x request kind. HeadHex = every head of the reply (interim ones included),
+	// BodyHex = the bytes that follow on the wire, as they are; ReplyHex when the reply answers a CONNECT.
+	Method string `json:"method,omitempty"` // GET | HEAD | POST: the client's request (Via connect: CONNECT)
+	ReqUp  string `json:"req_up,omitempty"` // the protocol the request asks to upgrade to ("" = no upgrade request)
+	At     string `json:"at,omitempty"`     // origin: the reply answers the request | connect: it is the upstream proxy's answer to CONNECT
+	After  string `json:"after,omitempty"`  // fin: the peer closes after its reply | keep: it goes on serving the connection
+	Dims   string `json:"dims,omitempty"`   // generator coordinates status/upgrade/content-type/framing/body (label)
 }
 
 func (c *Case) head() []byte { return core.MustUnHex(orEmpty(c.HeadHex)) }
@@ -146,8 +160,11 @@ func (c *Case) host() string {
 	switch c.Kind {
 	case "dial":
 		p := portRefused
-		if c.Fault == "timeout" {
+		switch c.Fault {
+		case "timeout":
 			p = portBlackhole
+		case "reset":
+			p = portReset
 		}
 		return id + ".dial.test:" + p
 	case "tls":
@@ -355,8 +372,25 @@ func generate(r *core.Rand, quick bool) []*Case {
 			g.add(&Case{Kind: "dial", Via: via, Fault: f, ReqClose: r.Chance(20)})
 		}
 	}
-	for _, via := range []string{"plain", "https", "connect", "mitm"} {
-		g.add(&Case{Kind: "dial", Via: via, Fault: "refused", Upstream: "dead"})
+	// the whole matrix: dial outcome x dialled party (origin, upstream http proxy, upstream https proxy) x
+	// request kind (plain and https through the transport, inside an intercepted tunnel, client CONNECT via
+	// dialvia): 502 for refused and reset, 504 for a dial that times out, on every path (the transport wraps
+	// failures to reach its proxy in a "proxyconnect" OpError)
+	for _, f := range []string{"refused", "timeout", "reset"} {
+		for _, up := range []string{"", "http", "https"} {
+			for _, via := range []string{"plain", "https", "connect", "mitm"} {
+				c := &Case{Kind: "dial", Via: via, Fault: f, ReqClose: r.Chance(20)}
+				if up != "" {
+					c.Upstream = map[string]string{"refused": "dead", "timeout": "hole", "reset": "rst"}[f]
+					if up == "https" {
+						c.Upstream = "s" + c.Upstream
+					}
+				} else if f != "reset" {
+					continue // generated above
+				}
+				g.add(c)
+			}
+		}
 	}
 	// D. TLS faults
 	tn := 1
@@ -425,6 +459,8 @@ func generate(r *core.Rand, quick bool) []*Case {
 		g.add(&Case{Kind: "malformed", Via: "https", BigHead: 11 << 20, K: -1})
 		g.add(&Case{Kind: "malformed", Via: "plain", BigHead: 9 << 20, K: -1}) // below the limit: passes
 	}
+	// K. hostile and unusual upstream replies as a product space (reply.go)
+	genReplies(g, quick)
 	// G. hostile client input
 	genClient(g, quick)
 	// H. consecutive failed exchanges on one connection
